@@ -214,6 +214,9 @@ func (e *env) apiScripts() []Script {
 		{"tag-delete-layout", fmt.Sprintf(`tag.delete("%s:v1")`, L)},
 		{"image-copy", fmt.Sprintf(`image.copy("%s:v1", "%s:v1")`, R, T)},
 		{"image-copy-to-layout", fmt.Sprintf(`image.copy("%s:v1", "%s:copy")`, R, L)},
+		// a copy within one repository is a retag: one manifest push, in a registry and in a layout
+		{"image-copy-retag", fmt.Sprintf(`image.copy("%s:v1", "%s:retagged")`, R, R)},
+		{"image-copy-retag-layout", fmt.Sprintf(`image.copy("%s:v1", "%s:retagged")`, L, L)},
 		{"image-export", fmt.Sprintf(`image.exportTar("%s:v1", "%s")`, R, tar)},
 		{"image-import", fmt.Sprintf(`image.exportTar("%s:v1", "%s"); image.importTar("%s:imported", "%s")`, R, tar, T, tar)},
 		{"image-import-layout", fmt.Sprintf(`image.exportTar("%s:v1", "%s"); image.importTar("%s:imported", "%s")`, R, tar, L, tar)},
